@@ -56,6 +56,7 @@ class CallGraph:
                 self.methods_by_name.setdefault(m, []).append(fi)
         self.sites = {}  # func key -> [CallSite]
         self.address_taken = self._address_taken()
+        self.param_funcs, self.param_open = self._param_bindings()
         self.stats = {"resolved": 0, "builtin": 0, "external": 0, "indirect": 0, "unresolved": 0, "total": 0}
         for fi in program.functions.values():
             self.sites[fi.key] = self._sites_of(fi)
@@ -76,6 +77,35 @@ class CallGraph:
                     if ent and ent[0] == "func":
                         out[ent[1].key] = ent[1]
         return out
+
+    def _param_bindings(self):
+        """Function values bound to parameters of module-level functions at their (name-resolved) call sites:
+        f(x, pred) called as f(l, token_is_whitespace) binds pred -> {token_is_whitespace}.  A parameter is `open` when some
+        call site passes something that is not a plain function reference (then the arity-based fallback applies)."""
+        funcs, opened = {}, set()
+        for mod in self.p.modules.values():
+            for n in ast.walk(mod.tree):
+                if not (isinstance(n, ast.Call) and isinstance(n.func, (ast.Name, ast.Attribute))):
+                    continue
+                ent = self.p.resolve_expr(mod, n.func)
+                if not (ent and ent[0] == "func" and ent[1].cls is None):
+                    continue
+                g = ent[1]
+                for i, a in enumerate(n.args):
+                    if i >= len(g.params):
+                        break
+                    self._bind(mod, g, g.params[i], a, funcs, opened)
+                for kw in n.keywords:
+                    if kw.arg and kw.arg in g.params:
+                        self._bind(mod, g, kw.arg, kw.value, funcs, opened)
+        return funcs, opened
+
+    def _bind(self, mod, g, pname, a, funcs, opened):
+        e = self.p.resolve_expr(mod, a) if isinstance(a, (ast.Name, ast.Attribute)) else None
+        if e and e[0] == "func":
+            funcs.setdefault((g.key, pname), set()).add(e[1])
+        else:
+            opened.add((g.key, pname))
 
     def _sites_of(self, fi):
         sites = []
@@ -112,6 +142,9 @@ class CallGraph:
             if f.id in nested:
                 return [nested[f.id]], "resolved"
             if f.id in locs:
+                # call through a parameter whose every call site passes a plain function reference: those functions
+                if not self.conservative and fi.cls is None and f.id in fi.params and (fi.key, f.id) in self.param_funcs and (fi.key, f.id) not in self.param_open:
+                    return sorted(self.param_funcs[(fi.key, f.id)], key=lambda x: x.key), "resolved"
                 # call through a local / parameter: function value
                 return self._indirect(call), "indirect"
             ent = p.resolve_name(mod, f.id)
